@@ -768,40 +768,60 @@ def r2b_same_table(rep, src):
     # the writer interpreted (sa.heap) on a field whose table entry is [md5sum, size, name] and whose records hold a different mark
     # under every sub-field (the records themselves list their keys in another order): the marks come out in table order, one
     # record per line, a single record on the field line
+    # ... with and without a registered width for the size column (the column is then right-aligned to it in EVERY record, also when
+    # the field holds one record only), and every text the writer lays out is read back (the interpreted reader above) as the records
     problems = []
-    for single in (True, False):
-        content = {}
+    nw = 0
+    R_1, R_2 = {'md5sum': 'M1', 'size': 'S1', 'name': 'N1'}, {'md5sum': 'M2', 'size': 'S2', 'name': 'N2'}
+    for width in (None, 6):
+        for form in ('single', 'one', 'two'):
+            content = {}
 
-        def getitem(it_, a, k, content=content):
-            k_ = a[1].concrete() if hasattr(a[1], 'concrete') else a[1]
-            if k_ not in content:
-                raise H_.Raised('KeyError', it_.h.version, 0)
-            return content[k_]
-        heap_ = H_.Heap(src.mod(MOD), hooks={'__getitem__': getitem})
-        it_ = H_.Interp(heap_)
+            def getitem(it_, a, k, content=content):
+                k_ = a[1].concrete() if hasattr(a[1], 'concrete') else a[1]
+                if k_ not in content:
+                    raise H_.Raised('KeyError', it_.h.version, 0)
+                return content[k_]
+            heap_ = H_.Heap(src.mod(MOD), hooks={'__getitem__': getitem})
+            it_ = H_.Interp(heap_)
 
-        def rec(a_, b_, c_):
-            d_ = heap_.new_dict()
-            for k_, v_ in (('name', c_), ('md5sum', a_), ('size', b_)):
-                heap_.dict_set(d_, k_, v_)
-            return d_
-        content['Files'] = rec('M1', 'S1', 'N1') if single else heap_.new_list([rec('M1', 'S1', 'N1'), rec('M2', 'S2', 'N2')])
-        tbl = heap_.new_dict()
-        heap_.dict_set(tbl, 'files', heap_.new_list(['md5sum', 'size', 'name']))
-        me_ = heap_.alloc('_multivalued', {'_multivalued_fields': tbl, '_fixed_field_lengths': heap_.new_dict()})
-        want_ = ' M1 S1 N1' if single else '\n M1 S1 N1\n M2 S2 N2'
-        try:
-            r_ = it_.call(H_.Closure(fw.node, {}, me_, fw.cls), ['Files'])
-            r_ = r_.concrete() if hasattr(r_, 'concrete') else r_
-        except H_.Raised as x_:
-            r_ = 'raises %s' % x_.exc
-        if r_ != want_:
-            problems.append('%s with the table entry [md5sum, size, name] is written as %r; the reader pairs the tokens of a line with the table entry by position, so the text '
-                            'must be %r' % ('a single record' if single else 'two records', r_, want_))
+            def rec(a_, b_, c_):
+                d_ = heap_.new_dict()
+                for k_, v_ in (('name', c_), ('md5sum', a_), ('size', b_)):
+                    heap_.dict_set(d_, k_, v_)
+                return d_
+            content['Files'] = rec('M1', 'S1', 'N1') if form == 'single' else heap_.new_list([rec('M1', 'S1', 'N1')] + ([rec('M2', 'S2', 'N2')] if form == 'two' else []))
+            tbl = heap_.new_dict()
+            heap_.dict_set(tbl, 'files', heap_.new_list(['md5sum', 'size', 'name']))
+            widths = heap_.new_dict()
+            if width is not None:
+                w_ = heap_.new_dict()
+                heap_.dict_set(w_, 'size', width)
+                heap_.dict_set(widths, 'files', w_)
+            me_ = heap_.alloc('_multivalued', {'_multivalued_fields': tbl, '_fixed_field_lengths': widths})
+            size = lambda s_: s_ if width is None else s_.rjust(width)      # noqa: E731
+            lines_ = [' M1 %s N1' % size('S1')] + ([' M2 %s N2' % size('S2')] if form == 'two' else [])
+            want_ = lines_[0] if form == 'single' else '\n' + '\n'.join(lines_)
+            label_ = {'single': 'a single record', 'one': 'a list of one record', 'two': 'two records'}[form] + ('' if width is None else ' with the registered size width %d' % width)
+            nw += 1
+            try:
+                r_ = it_.call(H_.Closure(fw.node, {}, me_, fw.cls), ['Files'])
+                r_ = r_.concrete() if hasattr(r_, 'concrete') else r_
+            except H_.Raised as x_:
+                r_ = 'raises %s' % x_.exc
+            if r_ != want_:
+                problems.append('%s with the table entry [md5sum, size, name] is written as %r; the reader pairs the tokens of a line with the table entry by position%s, so the '
+                                'text must be %r' % (label_, r_, '' if width is None else ' and the size column is right-aligned to the registered width in every record', want_))
+            elif isinstance(r_, str):
+                back_ = read(r_)
+                want_back = R_1 if form == 'single' else [R_1] + ([R_2] if form == 'two' else [])
+                if back_ != want_back:
+                    problems.append('%s is written as %r, which is read back as %r' % (label_, r_, back_))
     if not problems:
-        rep.ok('C12.R2', fw.site, 'writer: sub-fields in table order', 'a single record and a list of two, marks in table order')
+        rep.ok('C12.R2', fw.site, 'writer: sub-fields in table order, sizes right-aligned, read back as the records', '%d forms (single record, list of one, list of two; with and '
+               'without a registered width)' % nw)
     else:
-        rep.fail('C12.R2', fw.site, 'writer: sub-fields in table order', '; '.join(problems), where=fw.where)
+        rep.fail('C12.R2', fw.site, 'writer: sub-fields in table order, sizes right-aligned, read back as the records', '; '.join(problems[:2]), where=fw.where)
     # (which texts the reader takes for a record list and which for a single record, and that this is what the writer lays out, is
     # decided on languages by C12.R5)
 
@@ -1260,8 +1280,17 @@ def check(src, rep, tier):
     rep.need('C12.R5', 3)
     M = Model(src, rep)
     rep.guard('C12.R1', r1_optional_fields, src)
-    rep.guard('C12.R2', r2_roundtrip, src, M)
+    n_v, n_e = len(rep.violations), len(rep.errors)
     rep.guard('C12.R2', r2b_same_table, src)
+    scen_hold = len(rep.violations) == n_v and len(rep.errors) == n_e
+    n_r2 = sum(1 for i_ in rep.instances if i_.get('rule') == 'C12.R2')
+    # (the template-level reading: exact for every token the writer can lay out, when the writer is in its vocabulary)
+    common.SoftErrors(rep, lambda: scen_hold, 'the interpreted writer and reader scenarios (C12.R2), which hold').guard('C12.R2', r2_roundtrip, src, M)
+    if rep.min_instances.get('C12.R2') == 0:
+        rep.min_instances['C12.R2'] = n_r2
     rep.guard('C12.R3', r3_tables, src)
     rep.guard('C12.R4', r4_size_column, src)
-    rep.guard('C12.R5', r5_container_kind, src, M)
+    n_r5 = sum(1 for i_ in rep.instances if i_.get('rule') == 'C12.R5')
+    common.SoftErrors(rep, lambda: scen_hold, 'the interpreted writer and reader scenarios (C12.R2), which hold').guard('C12.R5', r5_container_kind, src, M)
+    if rep.min_instances.get('C12.R5') == 0:
+        rep.min_instances['C12.R5'] = n_r5
